@@ -8,6 +8,8 @@
 -/
 import TvNetTcp.Proofs.SysIndex
 import TvNetTcp.Proofs.SysAccept
+import TvNetTcp.Proofs.SysReclaim
+import TvNetTcp.Proofs.SysCaps
 
 namespace TV.C13
 open TV.NetTcp
@@ -728,10 +730,13 @@ set_option maxRecDepth 100000 in
     `SynReceived` child on its port, whatever its address family. With `0.0.0.0:p` and `[::]:p` both
     listening, closing the v6 listener kills the v4 listener's half-open child: the client's
     `connect` reports `ConnectionRefused` although its listener is alive with an empty backlog, and
-    that listener's `accept` stays `Pending`. On the tree with the ten earlier repairs. -/
+    that listener's `accept` stays `Pending`; the refusal rule of the oracle (a connect whose covering
+    listener is still live, with nothing lost and no handshake timer expired, is never refused) flags
+    it. On the tree with the ten earlier repairs. -/
 theorem witness_F_C13_5_committed10 :
-    ((Sys.init Cfg.committed10 2).run dualFamilyClose).2.reverse.take 2 = [[Obs.pending], [Obs.err .refused]] := by
-  decide
+    ((Sys.init Cfg.committed10 2).run dualFamilyClose).2.reverse.take 2 = [[Obs.pending], [Obs.err .refused]] ∧
+    Spec.c13Check Cfg.committed10 (Spec.modelHistory Cfg.committed10 2 dualFamilyClose) ≠ none := by
+  refine ⟨by decide, by decide⟩
 
 set_option maxRecDepth 100000 in
 /-- With the repair (`fixListenerFamily`: a closing listener only collects half-open children of its
@@ -739,8 +744,9 @@ set_option maxRecDepth 100000 in
     connection. -/
 theorem fixed_F_C13_5 :
     ((Sys.init Cfg.committed 2).run fixed_dualFamilyClose).2.reverse.take 2 =
-      [[Obs.okConn ⟨.host 1 false, 9000⟩ ⟨.host 0 false, 49152⟩], [Obs.okConn ⟨.host 0 false, 49152⟩ ⟨.host 1 false, 9000⟩]] := by
-  decide
+      [[Obs.okConn ⟨.host 1 false, 9000⟩ ⟨.host 0 false, 49152⟩], [Obs.okConn ⟨.host 0 false, 49152⟩ ⟨.host 1 false, 9000⟩]] ∧
+    Spec.c13Check Cfg.committed (Spec.modelHistory Cfg.committed 2 fixed_dualFamilyClose) = none := by
+  refine ⟨by decide, by decide⟩
 
 /-! ## The statement itself: which histories it can be about -/
 
@@ -762,10 +768,12 @@ def wfOps : List Op → List Nat → List Nat → List Nat → Bool
 /-- The reclamation statement for the histories it is meant for. **Not proved.** What is proved
     towards it: the index invariant and accept-once for all histories, the timers
     (`silent_timer_exact`, `finWait2_timeout_candidates`), `reap_closed_complete` / `remove_clears`,
-    and the repaired witnesses; what is missing is the invariant that ties the oracle's ghost handle
-    lists to `fd_closed` in the kernels (every table entry is owned by a live handle, or is
-    application-closed, or is a never-accepted child of a live listener) and the frame lemmas for
-    `egress` over the other sockets of a host. -/
+    the repaired witnesses, and the kernel half: the frame theorem for `egress` over the other sockets
+    of a host (`Kernel.egress_socket`) and the removal of every silent application-closed socket
+    within the bound (`C13_Reclaim_kernel`); what is missing is the invariant that ties the oracle's
+    ghost handle lists to `fd_closed` in the kernels (every table entry is owned by a live handle, or
+    is application-closed, or is a never-accepted child of a live listener), the rounds in which a
+    closed socket still hears something, and loop-back connections. -/
 def C13_Reclaim_Wf (cfg : Cfg) : Prop :=
   ∀ ops : List Op, wfOps ops [] [] [] = true → Spec.c13Check cfg (Spec.modelHistory cfg 2 ops) = none
 
@@ -902,5 +910,193 @@ theorem C13_partial :
     (∀ (t : Tcb) (b : Bool), (t.abort b).state = .closed ∧ (t.abort b).sendBuf = [] ∧ (t.abort b).recvBuf = []) ∧
     (∀ k : Kernel, ∀ e ∈ k.reapClosed.sockets, Kernel.reapVictim e.2 = false) :=
   ⟨⟨rfl, rfl, rfl⟩, fun _ _ => ⟨rfl, rfl, rfl⟩, reap_closed_complete⟩
+
+/-! ## Reclamation in a blackhole: every silent application-closed socket goes away
+
+  The kernel half of the reclamation bound (`Proofs/Reclaim.lean`, `Proofs/ReclaimFrame.lean`).
+  `orphanRound` is what one `Kernel.egress` does to *one* application-closed socket that hears nothing:
+  the retransmit sweep, the persist sweep, `segment_one`, and `none` when the socket leaves the table
+  (abort + `reap_closed`).  (1) TCB level: for every such socket -- whatever its window, whatever is in
+  flight -- a measure drops every round (`orphanRound_progress`), so it is gone within the bound
+  (`C13_Reclaim_socket`).  (2) Frame: `Kernel.egress` over a table with any number of other sockets
+  does exactly `orphanRound` to this one (`Kernel.egress_socket`; the phases one by one:
+  `checkRetx0_socket`, `persistSweep_socket`, `segmentAll_socket`, `reapClosed_socket`), on a host
+  without loop-back connections (`Kernel.Remote`).  (3) Together: `C13_Reclaim_kernel`.
+  `orphanRound_tracks_egress` replays (2) on the witnesses' tables (hypotheses are satisfiable). -/
+
+/-- The bound of the socket-level theorems is inside the oracle's second bound. -/
+theorem blackhole_bound_le (cfg : Cfg) :
+    2 * (cfg.retxThreshold * (cfg.retxMax + 1)) + 2 ≤ 6 * Spec.reclaimBound cfg := by
+  unfold Spec.reclaimBound
+  have h : cfg.retxThreshold * (cfg.retxMax + 1) ≤ (cfg.retxThreshold + 1) * (cfg.retxMax + 2) :=
+    Nat.mul_le_mul (Nat.le_succ _) (Nat.le_succ _)
+  omega
+
+/-- **C13 reclamation, socket level, committed tree.**  On the committed tree an application-closed
+    socket that hears nothing is removed within `2 · thr · (max + 1) + 2 ≤ 6 · reclaimBound` egress
+    rounds: (a) in a transmitting state with its FIN queued, for every send window and every amount in
+    flight; (b) in `FIN_WAIT2`, within `thr · (max + 1)`.  (The remaining states of a closed socket are
+    collected at once: `Closed` / reset by `reap_closed_complete`; handshake states by the retransmit
+    budget, `silent_timer_exact`.) -/
+theorem C13_Reclaim_socket (mss : Nat) (hm : 1 ≤ mss) (cfg : Cfg) (hpp : cfg.fixPersistProbe = true)
+    (hpb : cfg.fixPersistBudget = true) (hfw : cfg.fixFinWait2Timeout = true) (t : Tcb)
+    (hre : t.egressSinceAck < cfg.retxThreshold) (hra : t.retxAttempts ≤ cfg.retxMax) :
+    (∀ f, t.transmittable = true → FinShape t f → t.persistTicks < cfg.retxThreshold →
+        t.persistProbes ≤ cfg.retxMax →
+        orphanRounds cfg mss (2 * (cfg.retxThreshold * (cfg.retxMax + 1)) + 2) t = none) ∧
+    (t.state = .finWait2 → orphanRounds cfg mss (cfg.retxThreshold * (cfg.retxMax + 1)) t = none) :=
+  ⟨fun f htr hs hpe hpa => blackhole_orphan_reclaimed cfg mss hm hpp hpb t f htr hs hre hra hpe hpa,
+   fun hst => blackhole_finWait2_reclaimed cfg mss hfw t hst hre hra⟩
+
+/-- **C13 reclamation, kernel level, committed tree.**  Host without loop-back connections
+    (`Kernel.Remote`), table with unique fds (`AccInv`, holds in all histories: `SysAccept`) and any
+    number of other sockets in any state; an application-closed socket whose peer is silent.  Then
+    rounds of `Kernel.egress` remove it from the table: (a) in a transmitting state (`FIN_WAIT1`,
+    `CLOSING`, `LAST_ACK`) with the FIN queued, within `2 · thr · (max + 1) + 2 ≤ 6 · reclaimBound` rounds,
+    for every send window and every amount in flight; (b) in `FIN_WAIT2` within `thr · (max + 1)`.
+    Missing for `C13_Reclaim_Wf`: the `Sys`-level invariant tying the oracle's ghost handle lists to
+    `fd_closed` (every table entry is owned by a live handle, or is application-closed, or is a
+    never-accepted child of a live listener), rounds in which the socket *does* hear something (each
+    resets a counter; the oracle's second bound, `6 · reclaimBound` rounds since the last handle
+    closed, then needs a bound on how often that can happen with an empty wire), and hosts with
+    loop-back connections. -/
+theorem C13_Reclaim_kernel (k : Kernel) (hk : AccInv k) (hrem : Kernel.Remote k.addresses k) (fd : Nat)
+    (s : Socket) (t : Tcb) (hs : k.getSock fd = some s) (ht : s.tcb = some t) (hcl : s.fdClosed = true)
+    (hm : 1 ≤ mssFor Cfg.committed (Kernel.boundEndpoint s).ip) (hrs : t.reset = false)
+    (hre : t.egressSinceAck < Cfg.committed.retxThreshold) (hra : t.retxAttempts ≤ Cfg.committed.retxMax) :
+    (∀ f, t.transmittable = true → FinShape t f → t.persistTicks < Cfg.committed.retxThreshold →
+        t.persistProbes ≤ Cfg.committed.retxMax →
+        ∃ m, m ≤ 2 * (Cfg.committed.retxThreshold * (Cfg.committed.retxMax + 1)) + 2 ∧
+          (Kernel.egressN Cfg.committed m k).getSock fd = none) ∧
+    (t.state = .finWait2 →
+        ∃ m, m ≤ Cfg.committed.retxThreshold * (Cfg.committed.retxMax + 1) ∧
+          (Kernel.egressN Cfg.committed m k).getSock fd = none) :=
+  ⟨fun f htr hsh hpe hpa =>
+    Kernel.kernel_orphan_reclaimed Cfg.committed rfl rfl rfl k hk hrem fd s t hs ht hcl hm f htr hsh hrs hre hra hpe hpa,
+   fun hst => Kernel.kernel_finWait2_reclaimed Cfg.committed rfl rfl k hk hrem fd s t hs ht hcl hm hst hrs hre hra⟩
+
+/-- **C13 reclamation along blackhole histories.**  Any reachable state of the committed tree (`n` hosts,
+    any history `pre`); host `h` has no loop-back connection; one of its sockets is application-closed
+    and its peer silent from now on: the rest of the history is rounds, losses and observations
+    (`egress` / `drop` / `stat`).  Then at every point of that rest with `2 · thr · (max + 1) + 2` rounds
+    behind it (`thr · (max + 1)` for `FIN_WAIT2`) the socket is out of host `h`'s table -- and stays out. -/
+theorem C13_Reclaim_blackhole (n : Nat) (pre ops : List Op) (S : Sys)
+    (hS : S = ((Sys.init Cfg.committed n).run pre).1) (h : Nat) (hh : h < S.kernels.length)
+    (hb : ∀ o ∈ ops, o.isBlackhole = true)
+    (hrem : Kernel.Remote (S.kernel h).addresses (S.kernel h)) (fd : Nat)
+    (s : Socket) (t : Tcb) (hs : (S.kernel h).getSock fd = some s) (ht : s.tcb = some t) (hcl : s.fdClosed = true)
+    (hm : 1 ≤ mssFor Cfg.committed (Kernel.boundEndpoint s).ip) (hrs : t.reset = false)
+    (hre : t.egressSinceAck < Cfg.committed.retxThreshold) (hra : t.retxAttempts ≤ Cfg.committed.retxMax) :
+    (∀ f, t.transmittable = true → FinShape t f → t.persistTicks < Cfg.committed.retxThreshold →
+        t.persistProbes ≤ Cfg.committed.retxMax →
+        2 * (Cfg.committed.retxThreshold * (Cfg.committed.retxMax + 1)) + 2 ≤ egressCount ops →
+        ((S.run ops).1.kernel h).getSock fd = none) ∧
+    (t.state = .finWait2 → Cfg.committed.retxThreshold * (Cfg.committed.retxMax + 1) ≤ egressCount ops →
+        ((S.run ops).1.kernel h).getSock fd = none) := by
+  have hacc : AccInv (S.kernel h) := by
+    rw [hS]; exact (TV.NetTcp.run_acc _ pre (SAcc.init _ n)).kernel h
+  have hcfg : S.cfg = Cfg.committed := by
+    rw [hS]; exact (TV.NetTcp.run_inv _ pre (SInv.init _ n)).2.1
+  have hrun := Sys.run_blackhole h ops S hb hh
+  rw [hcfg] at hrun
+  obtain ⟨ha, hb'⟩ := C13_Reclaim_kernel (S.kernel h) hacc hrem fd s t hs ht hcl hm hrs hre hra
+  constructor
+  · intro f htr hsh hpe hpa hn
+    rw [hrun]
+    exact Kernel.gone_after Cfg.committed _ fd _ hrem _ (ha f htr hsh hpe hpa) _ hn
+  · intro hst hn
+    rw [hrun]
+    exact Kernel.gone_after Cfg.committed _ fd _ hrem _ (hb' hst) _ hn
+
+def tcbOf (k : Kernel) (fd : Nat) : Option Tcb := (k.getSock fd).bind (·.tcb)
+
+/-- `n` rounds of `Kernel.egress` against `orphanRound` on socket `fd`: `(agreed every round, rounds
+    until the socket left the table)`. -/
+def egressAgrees (cfg : Cfg) (mss fd : Nat) : Nat → Kernel → Bool × Nat
+  | 0, _ => (true, 0)
+  | n + 1, k =>
+    match tcbOf k fd with
+    | none => (true, 0)
+    | some t =>
+      let k' := (Kernel.egress cfg k).1
+      let ok := match orphanRound cfg mss t, tcbOf k' fd with
+        | none, none => true
+        | some a, some b => decide (a = b)
+        | _, _ => false
+      let r := egressAgrees cfg mss fd n k'
+      (ok && r.1, r.2 + 1)
+
+/-- Every application-closed socket of every host after the first `p` ops: does `Kernel.egress`,
+    repeated, do to it what `orphanRound` says, and for how many rounds does it stay? -/
+def agreeAt (cfg : Cfg) (ops : List Op) (p : Nat) : List (Nat × Nat × Bool × Nat) :=
+  let st := ((Sys.init cfg 2).run (ops.take p)).1
+  (List.range st.kernels.length).flatMap fun h =>
+    st.kernels[h]!.sockets.filterMap fun e =>
+      if e.2.fdClosed && e.2.tcb.isSome then
+        let r := egressAgrees cfg (mssFor cfg (.host h false)) e.1 200 st.kernels[h]!
+        some (h, e.1, r.1, r.2)
+      else none
+
+set_option maxRecDepth 100000 in
+/-- `Kernel.egress_socket` replayed on the tables of the witnesses (its hypotheses are satisfiable
+    and the statement is the one meant): from the state right
+    after the close (and from later ones), `Kernel.egress` does to the closed socket exactly what
+    `orphanRound` says, round after round, until the socket is gone -- zero window with the FIN behind
+    it (F-C13-4), `FIN_WAIT2` after a lost RST (F-C13-2), `LAST_ACK` with the FIN in flight. -/
+theorem orphanRound_tracks_egress :
+    agreeAt (cfgBlackhole Cfg.committed) fixed_blackhole 19 = [(0, 1, true, 4)] ∧
+    agreeAt (cfgBlackhole Cfg.committed) fixed_blackhole 22 = [(0, 1, true, 2)] ∧
+    agreeAt Cfg.committed lostRst_committed 21 = [(0, 1, true, 18)] ∧
+    agreeAt Cfg.committed fixed_lostRst 22 = [(0, 1, true, 17)] ∧
+    agreeAt Cfg.committed fixed_dataAfterClose 11 = [(1, 2, true, 19)] ∧
+    agreeAt Cfg.committed fixed_dataAfterClose 22 = [(0, 1, true, 17)] := by
+  refine ⟨by decide, by decide, by decide, by decide, by decide, by decide⟩
+
+/-- `FinShape`, executable. -/
+def finShapeB (t : Tcb) (f : Nat) : Bool :=
+  decide (t.sndUna < M32) && decide (t.sendBuf.length + 1 < M32) && t.sndNxt == wadd t.sndUna f &&
+    decide (f ≤ t.sendBuf.length + 1) && t.finSeq == some (wadd t.sndUna t.sendBuf.length)
+
+theorem finShape_of_B {t : Tcb} {f : Nat} (h : finShapeB t f = true) : FinShape t f := by
+  unfold finShapeB at h
+  simp only [Bool.and_eq_true, decide_eq_true_eq, beq_iff_eq] at h
+  obtain ⟨⟨⟨⟨h1, h2⟩, h3⟩, h4⟩, h5⟩ := h
+  exact ⟨h1, h2, h3, h4, h5⟩
+
+/-- `Kernel.Remote`, executable. -/
+def remoteB (k : Kernel) : Bool :=
+  k.outbound.all (fun p => !Kernel.loc k.addresses p.dst) &&
+    k.sockets.all (fun e => match e.2.tcb with
+      | some t => !Kernel.loc k.addresses t.peer.ip
+      | none => true)
+
+theorem remote_of_B {k : Kernel} (h : remoteB k = true) : Kernel.Remote k.addresses k := by
+  unfold remoteB at h
+  rw [Bool.and_eq_true, List.all_eq_true, List.all_eq_true] at h
+  refine ⟨rfl, fun p hp => by simpa using h.1 p hp, fun e he t ht => ?_⟩
+  have := h.2 e he
+  rw [ht] at this
+  simpa using this
+
+/-- The TCB hypotheses of `C13_Reclaim_kernel` (a), on the socket `fd` of host `h` after `p` ops. -/
+def reclaimHyps (cfg : Cfg) (ops : List Op) (p h fd : Nat) : Bool :=
+  match tcbOf ((Sys.init cfg 2).run (ops.take p)).1.kernels[h]! fd with
+  | some t => remoteB ((Sys.init cfg 2).run (ops.take p)).1.kernels[h]! && t.transmittable && finShapeB t t.inFlight && !t.reset && decide (t.egressSinceAck < cfg.retxThreshold) &&
+      decide (t.retxAttempts ≤ cfg.retxMax) && decide (t.persistTicks < cfg.retxThreshold) &&
+      decide (t.persistProbes ≤ cfg.retxMax)
+  | none => false
+
+set_option maxRecDepth 100000 in
+/-- The hypotheses of `C13_Reclaim_kernel` on host (`Remote`) and TCB are what reachable closed sockets look like:
+    they hold on the witnesses' sockets from the close on (zero window, FIN behind data; `LAST_ACK`;
+    `FIN_WAIT1` with the FIN in flight). -/
+theorem reclaim_hyps_on_witnesses :
+    reclaimHyps (cfgBlackhole Cfg.committed) fixed_blackhole 19 0 1 = true ∧
+    reclaimHyps (cfgBlackhole Cfg.committed) fixed_blackhole 24 0 1 = true ∧
+    reclaimHyps Cfg.committed fixed_lostRst 22 0 1 = true ∧
+    reclaimHyps Cfg.committed fixed_lostRst 30 0 1 = true ∧
+    reclaimHyps Cfg.committed fixed_dataAfterClose 11 1 2 = true ∧
+    reclaimHyps Cfg.committed fixed_dataAfterClose 22 0 1 = true := by
+  refine ⟨by decide, by decide, by decide, by decide, by decide, by decide⟩
 
 end TV.C13
